@@ -96,7 +96,8 @@ theorem parseOnePAI_under (b : Buf) (o : Nat) (pf : PFromBody) {n : Nat} {e : Er
 theorem paisLoop_safe (b : Buf) (offs : Nat) (c : PPAIs) (hfit : b.size ≤ 65535) (h : PaSafe b offs c) :
     PaOut b (paisLoop b offs c).2.2 ∧
     ((paisLoop b offs c).2.1 = .moreBytes → PaSafe b (paisLoop b offs c).1 (paisLoop b offs c).2.2) ∧
-    ((paisLoop b offs c).2.1 = .ok → PaIdle b (paisLoop b offs c).2.2 ∧ (paisLoop b offs c).1 ≤ b.size) := by
+    ((paisLoop b offs c).2.1 = .ok → PaIdle b (paisLoop b offs c).2.2 ∧ (paisLoop b offs c).1 ≤ b.size) ∧
+    (paisLoop b offs c).1 ≤ b.size := by
   induction hk : b.size - offs using Nat.strongRecOn generalizing offs c with
   | _ k ih =>
     rw [paisLoop]
@@ -129,7 +130,7 @@ theorem paisLoop_safe (b : Buf) (offs : Nat) (c : PPAIs) (hfit : b.size ≤ 6553
       have hso := paStep_out b c pf lo next hfit h.stored h.lastF h.pnc hsafe.1 hl1 (hvd.1 (Or.inl rfl))
       have hf := (parseNameAddrPVal_post HdrPAI b offs c.cur hp0 (Or.inl rfl)).1
       have d := paDone_facts c pf h.clean hf
-      exact ⟨hso.1, (fun hh => by cases hh), fun _ => ⟨⟨hso.1, d.2, d.1⟩, hsafe.1.ho⟩⟩
+      exact ⟨hso.1, (fun hh => by cases hh), (fun _ => ⟨⟨hso.1, d.2, d.1⟩, hsafe.1.ho⟩), hsafe.1.ho⟩
     case moreValues =>
       have he : e0 = .moreValues := hmv0 rfl
       subst he
@@ -156,7 +157,7 @@ theorem paisLoop_safe (b : Buf) (offs : Nat) (c : PPAIs) (hfit : b.size ≤ 6553
         exact ih (b.size - next) (by omega) next (c.next pf) hnsafe rfl
       · rw [if_neg hg]
         exact ⟨⟨PField.inside_mono hlh hsafe.1.ho, hnsafe.stored, hnsafe.lastF, hnsafe.pnc⟩,
-          (fun hh => by cases hh), (fun hh => by cases hh)⟩
+          (fun hh => by cases hh), (fun hh => by cases hh), hsafe.1.ho⟩
     case moreBytes =>
       have he : e0 = .moreBytes := hmb0 rfl
       subst he
@@ -179,9 +180,9 @@ theorem paisLoop_safe (b : Buf) (offs : Nat) (c : PPAIs) (hfit : b.size ≤ 6553
           rw [paSetCur_n] at hk; rw [paSetCur_size] at hs
           rw [paSetCur_vals_ne c pf k (by omega)]; exact h.stored k hk hs
       exact ⟨⟨by rw [s1.2.1]; exact PField.inside_mono hl1 (by omega), hcs.stored, hcs.lastF, hcs.pnc⟩,
-        fun _ => hcs, (fun hh => by cases hh)⟩
+        (fun _ => hcs), (fun hh => by cases hh), hsafe.1.ho⟩
     all_goals
-      refine ⟨?_, (fun hh => by cases hh), (fun hh => by cases hh)⟩
+      refine ⟨?_, (fun hh => by cases hh), (fun hh => by cases hh), hsafe.1.ho⟩
       split
       · have s1 := paSetCur_scalars c pf
         exact hout _ s1.2.1 s1.2.2 (paSetCur_size c pf)
@@ -208,7 +209,8 @@ theorem paBump_wrap (c : PPAIs) (k : Nat) :
 theorem parseAllPAIValues_safe (b : Buf) (o : Nat) (c : PPAIs) (hfit : b.size ≤ 65535) (h : PaSafe b o c) :
     PaOut b (parseAllPAIValues b o c).2.2 ∧
     ((parseAllPAIValues b o c).2.1 = .moreBytes → PaSafe b (parseAllPAIValues b o c).1 (parseAllPAIValues b o c).2.2) ∧
-    ((parseAllPAIValues b o c).2.1 = .ok → PaIdle b (parseAllPAIValues b o c).2.2 ∧ (parseAllPAIValues b o c).1 ≤ b.size) := by
+    ((parseAllPAIValues b o c).2.1 = .ok → PaIdle b (parseAllPAIValues b o c).2.2 ∧ (parseAllPAIValues b o c).1 ≤ b.size) ∧
+    (parseAllPAIValues b o c).1 ≤ b.size := by
   rw [parseAllPAIValues_eq_wrap]
   exact paisLoop_safe b o c.wrap hfit h.wrap
 
@@ -220,7 +222,8 @@ theorem parseAllPAIValues_safe_new (b : Buf) (o : Nat) (c : PPAIs) (k : Nat) (hf
         (parseAllPAIValues b o { c with hNo := k, lastHVal := {} }).2.2) ∧
     ((parseAllPAIValues b o { c with hNo := k, lastHVal := {} }).2.1 = .ok →
       PaIdle b (parseAllPAIValues b o { c with hNo := k, lastHVal := {} }).2.2 ∧
-      (parseAllPAIValues b o { c with hNo := k, lastHVal := {} }).1 ≤ b.size) := by
+      (parseAllPAIValues b o { c with hNo := k, lastHVal := {} }).1 ≤ b.size) ∧
+    (parseAllPAIValues b o { c with hNo := k, lastHVal := {} }).1 ≤ b.size := by
   rw [parseAllPAIValues_eq_wrap, paBump_wrap]
   exact paisLoop_safe b o _ hfit (h.start o ho k)
 
